@@ -135,6 +135,9 @@ package contracts
 //@ extern func (ip net.IP) IsUnspecified() (r bool)
 //@   pure
 //@   ensures r == ipUnspec[base(ip)]
+//@ extern func (ip net.IP) To4() (r net.IP)
+//@   pure
+//@   ensures r != nil ==> len(r) == 4
 //@ extern func (n *net.IPNet) Contains(ip net.IP) (r bool)
 //@   pure
 //@ extern func (n *net.IPNet) String() (s string)
